@@ -11,6 +11,18 @@ use super::tag::parse_generic_decl_list;
 use super::{expect_token, if_token_bump, parse_description};
 
 pub fn parse_type(p: &mut LuaDocParser) -> DocParseResult {
+    if !p.enter_nesting() {
+        return Err(LuaParseError::doc_error_from(
+            &t!("type is nested too deeply"),
+            p.current_token_range(),
+        ));
+    }
+    let result = parse_type_unguarded(p);
+    p.leave_nesting();
+    result
+}
+
+fn parse_type_unguarded(p: &mut LuaDocParser) -> DocParseResult {
     if p.current_token() == LuaTokenKind::TkDocContinueOr {
         return parse_multi_line_union_type(p);
     }
@@ -104,6 +116,18 @@ fn parse_extends_conditional_type(
 // keyof <type>, -1
 // <type> | <type> , <type> & <type>, <type> in keyof <type>
 fn parse_sub_type(p: &mut LuaDocParser, limit: i32) -> DocParseResult {
+    if !p.enter_nesting() {
+        return Err(LuaParseError::doc_error_from(
+            &t!("type is nested too deeply"),
+            p.current_token_range(),
+        ));
+    }
+    let result = parse_sub_type_unguarded(p, limit);
+    p.leave_nesting();
+    result
+}
+
+fn parse_sub_type_unguarded(p: &mut LuaDocParser, limit: i32) -> DocParseResult {
     let uop = LuaOpKind::to_type_unary_operator(p.current_token());
     let mut cm = if uop != LuaTypeUnaryOperator::None {
         let range = p.current_token_range();
